@@ -8,7 +8,7 @@ from vlib import engine, gen, kal
 ID = "C08"
 RULE = ("One generated string (nucleotide ACGTU / +N / full IUPAC / all-N, protein 20 aa / +BZX / all-X, homopolymers, "
         "either case; length 1..800 quick, 1..5000 thorough; short strings drawn letter by letter) x 2..500 copies x a type "
-        "admissible for the kind kalign itself reports for the string x threads 1..16 x entry point (kalign() / file API; the file in a drawn layout: wrapped at 1/7/60/80 or not, LF or CRLF, with or without a final line terminator, 0/1/6 leading blank lines, optionally one header line of 127..70000 characters). "
+        "admissible for the kind kalign itself reports for the string x threads 1..16 x entry point (kalign() / file API / file API + the three written files parsed back; the file in a drawn layout: wrapped at 1/7/60/80 or not, LF or CRLF, with or without a final line terminator, 0/1/6 leading blank lines, optionally one header line of 127..70000 characters). "
         "Oracle: every row equals the string and the length is unchanged. Non-trivial = copies>=3 or length>=2; distinct "
         "by hash of the case.")
 ASSUMPTIONS = ["gap penalties are the type's defaults: the property quantifies over alignment types, not over user penalties (with gap open 0, X:X scoring <= 0 makes the gap-free alignment non-optimal)",
@@ -39,7 +39,7 @@ def cases(draw, tier):
     if len(s) * copies > (250000 if tier == "quick" else 1500000):
         copies = max(2, (250000 if tier == "quick" else 1500000) // len(s))
     return {"s": s, "copies": copies, "type_pick": draw(st.integers(0, 3)), "threads": draw(gen.threads),
-"entry": draw(st.sampled_from(["arr", "file"])),
+"entry": draw(st.sampled_from(["arr", "file", "written"])),
             "layout": draw(gen.layouts),
             # file entry: one record may carry a very long header line (database-style descriptions; the line buffers of a
             # reader are 128 / 256 / 4096 / 65536 bytes in many programs)
@@ -62,11 +62,27 @@ def check(case):
             r = kal.align_arr(seqs, cfg)
         else:
             nm = ["s%d" % i for i in range(k)]
-            if case.get("header"):
+            if case.get("header") and case["entry"] == "file":      # (headers with blanks cannot be carried by the block formats)
                 hi, hl = case["header"]
                 hi = hi % k
                 nm[hi] = (nm[hi] + " Escherichia coli K-12 " + "hypotheticalproteinMKV " * (hl // 23 + 1))[:hl]
             r = kal.align_named(nm, seqs, cfg, layout=case.get("layout"))
+            if case["entry"] == "written":
+                # the same through the files kalign writes (all three formats), independently parsed
+                wd = kal.runner.workdir()
+                fp = wd.write(kal.fasta_bytes(nm, seqs, layout=case.get("layout")), ".fa")
+                rf = kal.run_files([fp], cfg, write=["fasta", "msf", "clu"])
+                for fmt in ("fasta", "msf", "clu"):
+                    if rf["write_rcs"].get(fmt) != 0 or rf["written"].get(fmt) is None:
+                        return engine.violation({"what": "write(%s) failed" % fmt}, kind="status")
+                    try:
+                        _, frows = kal.formats.parse_any(fmt, rf["written"][fmt])
+                    except kal.formats.FormatError as e:
+                        return engine.violation({"what": "written %s file does not parse: %s" % (fmt, e), "len": len(s), "copies": k})
+                    if len(frows) != k or any(x != s for x in frows):
+                        bad = [x for x in frows if x != s][:1]
+                        return engine.violation({"what": "written %s file: a row differs from the input string" % fmt, "len": len(s), "copies": k,
+                                                 "rows": len(frows), "row": (bad[0][:120] if bad else None), "row_len": len(bad[0]) if bad else None})
     except kal.Failure as f:
         if f.ended.kind == "hang":
             return engine.discard("cpu-limit (inconclusive; hangs are judged by C05)")
@@ -74,7 +90,7 @@ def check(case):
     except kal.Rejected as e:
         return engine.violation({"what": "identical sequences rejected: %s" % e.what, "info": e.info}, kind="status")
     cl = ["entry=" + case["entry"], "biotype=%d" % bt, "type=%d" % t]
-    if case.get("header") and case["entry"] != "arr":
+    if case.get("header") and case["entry"] == "file":
         cl.append("long_header")
     if k >= 100:
         cl.append("copies>=100")
@@ -108,7 +124,7 @@ def extra(tier, seed, stats):
         rnd = random.Random(L * 7919 + seed)
         alpha = ALPHAS[L % len(ALPHAS)]
         s = "".join(rnd.choice(alpha) for _ in range(L))
-        cases_.append({"s": s, "copies": 2 + L % 4, "type_pick": L % 4, "threads": 1 + L % 4, "entry": "arr" if L % 2 else "file",
+        cases_.append({"s": s, "copies": 2 + L % 4, "type_pick": L % 4, "threads": 1 + L % 4, "entry": ["arr", "file", "written"][(L + 2) % 3],
                        "layout": {"width": [0, 60, 0][L % 3], "eol": "\r\n" if L % 5 == 0 else "\n", "final_eol": L % 4 != 0}})
     for n in sweeps.count_sweep(quick):
         rnd = random.Random(n * 104729 + seed)
